@@ -74,6 +74,46 @@ def same_del(a, b):
     return close(a[1], b[1])
 
 
+def problems_vs_builders(m, capdir, kind, stats):
+    """Read the solves the (possibly forked) workers recorded and compare each with the Lean builder of that item's problem."""
+    import glob
+    import auxcorr
+    recs = []
+    for f in sorted(glob.glob(os.path.join(capdir, "solves_*.jsonl"))):
+        recs += [json.loads(l) for l in open(f) if l.strip()]
+    errs = glob.glob(os.path.join(capdir, "errors_*.txt"))
+    if errs:
+        raise RuntimeError("solve capture failed inside a worker: " + open(errs[0]).read()[:300])
+    if not recs:
+        return []
+    net = auxcorr.net_json(m)
+    idx = {r.id: i for i, r in enumerate(m.reactions)}
+    rules = [r.gene_reaction_rule for r in m.reactions]
+    lines = []
+    for rec in recs:
+        what, item = rec["task"]
+        d = rec["problem"]
+        if what == "fva":
+            v = d["vars"].get("fva_old_objective", ["0", "0", "continuous"])
+            t = v[0] if net["dir"] == "max" else v[1]
+            lines.append({"net": net, "build": "fvaStep", "old": "fva_old_objective", "t": t, "cap": None, "i": idx[item], "max": d["dir"] == "max"})
+        elif what == "reaction":
+            lines.append({"net": net, "build": "reactionDeletion", "closed": [idx[x] for x in item]})
+        else:
+            lines.append({"net": net, "build": "geneDeletion", "rules": rules, "ko": list(item)})
+    preds = auxcorr.predicted(lines)
+    out = []
+    pids = set()
+    for rec, line, pred in zip(recs, lines, preds):
+        pids.add(rec["pid"])
+        df = auxcorr.diff(pred, rec["problem"])
+        stats["worker_problems_compared"] = stats.get("worker_problems_compared", 0) + 1
+        if df:
+            out.append(f"item {rec['task'][1]} in process {rec['pid']}: {df[:3]}")
+    stats["worker_problem_pids"] = max(stats.get("worker_problem_pids", 0), len(pids))
+    return out
+
+
 def check_case(case):
     from cobra.flux_analysis import (double_gene_deletion, double_reaction_deletion, find_blocked_reactions, find_essential_genes, find_essential_reactions,
                                      single_gene_deletion, single_reaction_deletion)
@@ -95,7 +135,10 @@ def check_case(case):
             items = list(case["items"])
             rng.shuffle(items)
             log = os.path.join(td, f"log{i}.txt")
-            W.CONFIG.update(seed=dseed, log=log, max_delay_ms=case.get("max_delay_ms", 3))
+            capdir = os.path.join(td, f"solves{i}")
+            os.makedirs(capdir)
+            capture_on = kind in ("fva", "single_gene", "single_reaction", "double_reaction", "double_gene") and not case.get("loopless", False)
+            W.CONFIG.update(seed=dseed, log=log, max_delay_ms=case.get("max_delay_ms", 3), capture_dir=capdir if capture_on else None)
             try:
                 if kind == "fva":
                     res, order = fva_frame(m, items, procs, loopless=case.get("loopless", False), fraction=case.get("fraction", 1.0))
@@ -121,7 +164,13 @@ def check_case(case):
                 fails.append(f"{kind} with processes={procs} raised {type(e).__name__}: {str(e)[:200]}")
                 break
             finally:
-                W.CONFIG.update(log=None, max_delay_ms=0)
+                W.CONFIG.update(log=None, max_delay_ms=0, capture_dir=None)
+            if capture_on and not fails:
+                # what each worker handed to the solver for each item, whatever the schedule: the problem of item i is a function of the model content
+                # and of i alone (AuxM.Net.fvaStep / reactionDeletion / geneDeletion) — compared entry by entry
+                pf = problems_vs_builders(m, capdir, kind, stats)
+                if pf:
+                    fails.append(f"{kind} with processes={procs}: the problem a worker solved for an item is not the problem of that item: {pf[0]}")
             per = read_log(log)
             stats["runs"] += 1
             stats["worker_pids"] += len(per)
@@ -298,6 +347,7 @@ def run(ctx):
     distinct = set()
     samples = []
     pids = runs = maxp = 0
+    wprob = wprob_pids = 0
     pool = common.IsolatedPool("c14", "check_isolated", workers=3, timeout=600)
     try:
         for case, res in pool.run(iter(cases)):
@@ -317,6 +367,8 @@ def run(ctx):
             pids += st.get("worker_pids", 0)
             runs += st.get("runs", 0)
             maxp = max(maxp, st.get("max_pids_one_run", 0))
+            wprob += st.get("worker_problems_compared", 0)
+            wprob_pids = max(wprob_pids, st.get("worker_problem_pids", 0))
             distinct.add(json.dumps(public(case), sort_keys=True))
             if len(samples) < 2:
                 samples.append(public(case))
@@ -345,6 +397,7 @@ def run(ctx):
                 "essential genes / reactions} x processes 1 and two of 2..4 (quick) / 2..8 (thorough) x permuted item lists x seeded per-task delays; every "
                 "run compared with the others and (FVA, single deletions) with asking for items alone; OptGP with 2-4 processes; counted: distinct cases",
         "samples": samples, "kinds": kinds, "skipped": skipped, "pool_runs": runs, "worker_pids_seen_in_logs": pids, "max_distinct_worker_pids_in_one_run": maxp,
+        "worker_problems_compared_with_lean_builders": wprob, "max_distinct_processes_in_one_compared_run": wprob_pids,
         "traces_validated_against_impl": ran,
     })
     ctx.assumptions += [
